@@ -141,6 +141,19 @@ func runBatch(prop string) {
 	casesRoot := filepath.Join(c.OutDir, "cases")
 	_ = os.MkdirAll(casesRoot, 0o755)
 
+	if prop == "C17" {
+		// handler-mode cases are appended after the n ordinary ones, if the tree under test exports them
+		handlerBase = n
+		if executorExport() != nil {
+			passes := 1
+			if c.Tier == "thorough" {
+				passes = 10
+			}
+			n += passes * len(handlerTemplates())
+		} else {
+			c.Count("handler_export_missing", 1)
+		}
+	}
 	var idxs []int
 	for i := 0; i < n; i++ {
 		if i%nb == c.Batch%nb {
@@ -316,6 +329,9 @@ func runCaseOnce(c *vlib.Ctx, prop string, idx, attempt int, self, bin, casesRoo
 	if cs.Child.NeverReady != "" {
 		c.Count("never_ready_children", 1)
 	}
+	if cs.ViaHandlers {
+		c.Count("handler_cases", 1)
+	}
 	if cs.UserName != "" {
 		c.Count("user_cases", 1)
 		if cs.JudgeSurvivors {
@@ -359,6 +375,8 @@ func runCaseOnce(c *vlib.Ctx, prop string, idx, attempt int, self, bin, casesRoo
 				c.Count("kills_child_"+side, 1)
 			case e.Name == "trigger":
 				c.Count("triggers", 1)
+			case strings.HasPrefix(e.Name, "raw:"):
+				c.Count("handler_bad_payloads", 1)
 			case strings.HasPrefix(e.Name, "bigtransition:"):
 				c.Count("big_transition_requests", 1)
 			case strings.HasPrefix(e.Name, "transition:"):
